@@ -1023,7 +1023,9 @@ def m_mask_op(I, fr, st, t, args, key):
     lms = [as_lanemask(a) for a in args]
     if any(lms):
         return m_lanemask_op(I, fr, st, t, args, key, name, lms)
-    ts = [a.t if isinstance(a, TermV) else None for a in args]
+    # an untracked mask value is a fresh, unique term (never `None`: facts about one unknown mask must not
+    # be confused with facts about another)
+    ts = [a.t if isinstance(a, TermV) else ('vec', fresh('mask')) for a in args]
     if name == 'and' and len(ts) == 2 and all(x is not None for x in ts):
         # mask & all_zeros_except_least_significant(k): the lanes of the mask from lane k on
         for a, b in ((ts[0], ts[1]), (ts[1], ts[0])):
@@ -1068,28 +1070,42 @@ def m_lanemask_op(I, fr, st, t, args, key, name, lms):
     if name == 'has_non_zero' and lms[0]:
         return ret1(st, BoolV(('pred', True, 'nzfrom', (T, st.store.nf(lo)))))
     if name == 'first_offset' and lms[0]:
+        # AXIOM (weak, holds for every backend incl. the NEON mask that under-clears): `m.and(all_zeros_except_least_
+        # significant(lo))` keeps every lane >= lo of m; lanes below lo may or may not survive.  So the first set lane o
+        # is either >= lo (then lanes [lo, o) of m are clear), or a surviving lane below lo: two successor states.
         w = mask_width(T) or 32
-        o = fresh('lane')
-        st.store.add_range(V(o), 0, w - 1)
-        st.store.add_le(lo - V(o))                      # the lowest set lane is not one of the cleared ones
         nz = I.models.entailed_pred(I, st, ('pred', True, 'nzfrom', (T, st.store.nf(lo))))
         I.ob('AXIOM-PRE', fr, t['loc'], name, nz, '' if nz else f"{name} applied to a mask not known to be non-zero")
-        g = dict(st.ghost.get('lanes', {}))
-        g[o] = (name, T)
-        st.ghost['lanes'] = g
-        gl = dict(st.ghost.get('lane_lo', {}))
-        gl[o] = (term_key(T, st.store), st.store.nf(lo))
-        st.ghost['lane_lo'] = gl
-        from . import e3
-        e3.on_lanes_clear(I, st, T, lo, V(o))           # lanes [lo, o) are clear
-        return ret1(st, IntV(V(o)))
+        outs = []
+        for case in ('kept', 'below'):
+            s2 = st.copy() if case == 'kept' else st
+            o = fresh('lane')
+            s2.store.add_range(V(o), 0, w - 1)
+            if case == 'kept':
+                s2.store.add_le(lo - V(o))
+            else:
+                s2.store.add_le(V(o) + 1 - lo)
+            if not (s2.store.is_sat() and s2.store.check_sat()):
+                continue
+            g = dict(s2.ghost.get('lanes', {}))
+            g[o] = (name, T)
+            s2.ghost['lanes'] = g
+            gl = dict(s2.ghost.get('lane_lo', {}))
+            gl[o] = (term_key(T, s2.store), s2.store.nf(lo), case)
+            s2.ghost['lane_lo'] = gl
+            if case == 'kept':
+                from . import e3
+                e3.on_lanes_clear(I, s2, T, lo, V(o))           # lanes [lo, o) are clear
+            outs.append((s2, IntV(V(o))))
+        return outs
     if name == 'clear_least_significant_bit' and lms[0]:
         # the lowest set lane is the one first_offset reported for this very mask
         tk, lk = term_key(T, st.store), st.store.nf(lo)
-        for o, (tk2, lo2) in st.ghost.get('lane_lo', {}).items():
+        for o, (tk2, lo2, case) in st.ghost.get('lane_lo', {}).items():
             if tk2 == tk and st.store.nf(lo2) == lk:
-                return ret1(st, lanemask(T, V(o) + 1))
-        return ret1(st, TermV(('clear_lsb', ('opaque', 'lanemask'))))
+                # clearing the first set lane o: every lane >= max(lo, o + 1) of T is still there
+                return ret1(st, lanemask(T, V(o) + 1 if case == 'kept' else lo))
+        return ret1(st, TermV(('vec', fresh('mask'))))
     return ret1(st, TermV(('vec', fresh('mask'))))
 
 
